@@ -122,6 +122,15 @@ def table_u(facts, rep, w, rule="R09.1", only=None):
                                 return True
                     return False
                 ok = sets is not None and all(upper_has(g) or copied_up(g) for g in sets)
+                # a copy-up that was attempted and failed ends the call: no path continues to the append past its Err edge
+                # (the upper file may exist — truncated — exactly because the copy failed half way)
+                failed_cu = sets is not None and any(
+                    g[0] == "variant" and g[2] == "err" and peel(g[1])[0] == "call" and sname(peel(g[1])[1]) == "copy_file"
+                    for gs_ in sets for g in gs_)
+                n += 1
+                rep.ob(rule, b.id, "append_file: a failed copy-up is never appended to", not failed_cu, "" if not failed_cu else
+                       "some path reaches the upper-layer append_file after the copy-up returned Err: the session continues on a "
+                       "partial copy of the lower layer's bytes", s.line)
                 n += 1
                 rep.ob(rule, b.id, "append_file: copy-up when the upper layer lacks the file", ok, "" if ok else
                        "some path reaches the upper-layer append_file with neither the upper copy existing nor a "
@@ -154,6 +163,16 @@ def table_u(facts, rep, w, rule="R09.1", only=None):
                            "the upper-layer parent chain is created before the file to append to has been found in the union (and "
                            "without checking that the union parent is a directory): a failed append below a lower-layer *file* "
                            "leaves a directory shadowing that file", s2.line)
+            # the copy-up is a complete copy made before the handle is handed out: copy_file(resolved -> upper), then
+            # append_file on the upper path.  Creating / writing the upper file by hand inside append_file (and handing out
+            # that creation handle, or copying through a String) exposes an empty or partial file while the handle is open,
+            # or fails on bytes that are not UTF-8
+            for cb, s, tr, recv in ov.path_sites(b, ("create_file", "remove_file", "read_to_string", "open_file")):
+                okh = not (ov.is_upper_plain(recv) or ov.is_resolved(recv))
+                n += 1
+                rep.ob(rule, b.id, "append_file: the copy-up is copy_file, nothing hand-made", okh, "" if okh else
+                       "append_file calls %s on a layer path itself instead of copying the resolved file up with copy_file and then "
+                       "appending" % sname(s.path), s.line)
             # the copy-up goes resolved -> upper
             for cb, s, tr, recv in ov.path_sites(b, ("copy_file",)):
                 dst = tr.operand(s.args[1])
@@ -507,6 +526,19 @@ def materialisation_rules(facts, rep, w, rule="R09.2"):
             # ... and always for those: the only conditions in front of it are the union lookup and the split of the path.  A
             # remembered "already copied up" (cache, flag, counter) makes the step skippable while another caller is still
             # in the middle of it (C17) or after the directory was removed again (C09)
+            # a failure to materialise the parent is the call's failure, with the write layer's own error (a read-only write
+            # layer answers NotSupported; turning that into "parent does not exist" changes the class the caller sees)
+            propagated = False
+            for blk2 in cb.blocks:
+                t2 = blk2.term
+                if t2.kind == "call" and short(t2.callee() or "") == "Try::branch" and t2.args:
+                    x2 = tr.operand(t2.args[0])
+                    if any(y[0] == "call" and len(y) > 3 and y[3] == (cb.id, s.bb) for y in walk(x2)):
+                        propagated = True
+            n += 1
+            rep.ob(rule, b.id, "a failed materialisation is propagated with `?`", propagated, "" if propagated else
+                   "the result of create_dir_all on the upper layer is tested or discarded instead of propagated: the write layer's "
+                   "error (e.g. NotSupported of a read-only layer) is replaced by whatever the caller builds next", s.line)
             extra = []
             for g in cb and tr.guards_at(s.bb):
                 root_calls = [x for x in walk(g[1]) if x[0] == "call" and isinstance(x[1], str)]
